@@ -104,6 +104,17 @@ class RandomStub:
         self._log('sample', list(population), k, perms[i])
         return [population[j] for j in perms[i]]
 
+    def choices(self, population, weights=None, *, cum_weights=None, k=1):
+        """draws WITH replacement (uniform only: a weighted call is not modelled)"""
+        if weights is not None or cum_weights is not None:
+            raise UnencodableRandomness("random.choices with weights")
+        n = len(population)
+        if n == 0:
+            raise IndexError('Cannot choose from an empty population')
+        idx = tuple(symx.ENG.choose(n, 'choices') for _ in range(k))
+        self._log('choices', list(population), k, idx)
+        return [population[j] for j in idx]
+
     def seed(self, *a, **k):
         return None
 
